@@ -57,6 +57,7 @@ def run(run, ix, tier):
     check_percent_halfwidth(run, ix)
     check_outward_helper(run, ix)
     check_atan2_corners(run, ix)
+    check_gamma_tiny_argument(run, ix)
     # literal forms (rules of the C07 module, reported here as C-R6)
     from ..report import SubRun
     from . import c07
@@ -847,6 +848,52 @@ def exact_table_passthrough(ix, f, r):
         if not (len(rr) == 1 and norm(rr[0].value) == 'mpf_gamma(x, prec, rnd, %d)' % ty):
             return '%s does not forward (x, prec, rnd) to mpf_gamma with type %d' % (w, ty)
     return None
+
+
+# --------------------------------------------------------------------------- C-R21
+def check_gamma_tiny_argument(run, ix):
+    """C-R21.  The outward helper allows 2**10 units of the extended precision for the error of a kernel.  mpf_gamma
+    converts its argument to FIXED POINT with wp fractional bits (`absxman = man >> (-offset)`): an argument of
+    magnitude 2**mag keeps wp+mag significant bits, so the relative error of everything computed from absxman is
+    2**-(wp+mag) -- far beyond the allowance for a tiny argument.  The Taylor branch treats that case in floating
+    point; the Stirling branch (taken for every argument once wp >= MAX_GAMMA_TAYLOR_PREC) does not.  Decided: before
+    the conversion, a branch under `mag < -C` and `wp >= MAX_GAMMA_TAYLOR_PREC` returns for the types 0, 2 and 3 through
+    the recurrence on x+1 (formed exactly by a precision-less mpf_add)."""
+    run.rule('C-R21', floor=1, desc='mpf_gamma does not convert a tiny argument to fixed point on the Stirling path')
+    GZ = 'mpmath/libmp/gammazeta.py'
+    f = ix.func(GZ, 'mpf_gamma')
+    conv = [a for a in _walk_own(f.node) if isinstance(a, ast.Assign) and norm(a.targets[0]) == 'absxman']
+    if not conv:
+        raise AnalysisError('mpf_gamma: fixed-point conversion of the argument not found')
+    first = min(a.lineno for a in conv)
+    ok = False
+    for st in f.node.body:
+        if not (isinstance(st, ast.If) and st.lineno < first):
+            continue
+        cs = st.test.values if isinstance(st.test, ast.BoolOp) and isinstance(st.test.op, ast.And) else [st.test]
+        small = any(isinstance(c, ast.Compare) and norm(c.left) == 'mag' and isinstance(c.ops[0], ast.Lt) and
+                    isinstance(c.comparators[0], ast.UnaryOp) and isinstance(c.comparators[0].op, ast.USub) for c in cs)
+        high = any(norm(c).replace(' ', '') == 'wp>=MAX_GAMMA_TAYLOR_PREC' for c in cs)
+        if not (small and high) or len(cs) != 2:
+            continue
+        exact1 = any(isinstance(a, ast.Assign) and norm(a.value) in ('mpf_add(x, fone)', 'mpf_add(fone, x)')
+                     for a in st.body)
+        types = set()
+        for b in st.body:
+            if isinstance(b, ast.If) and isinstance(b.test, ast.Compare) and norm(b.test.left) == 'type' and \
+                    any(isinstance(r, ast.Return) for r in b.body):
+                types.add(norm(b.test.comparators[0]))
+        if exact1 and {'0', '2', '3'} <= types:
+            ok = True
+    if ok:
+        run.ok('C-R21', 'mpf_gamma: tiny arguments at wp >= MAX_GAMMA_TAYLOR_PREC go through gamma(x+1)/x before the '
+               'fixed-point conversion')
+    else:
+        run.fail(Finding('C-R21', GZ, 'mpf_gamma', norm(sorted(conv, key=lambda a: a.lineno)[0]),
+                         'on the Stirling path (every argument once wp >= MAX_GAMMA_TAYLOR_PREC) a tiny argument is '
+                         'converted to fixed point with wp fractional bits and keeps only wp+mag significant bits: '
+                         'x*gamma(x) = 1.000977 for x = 2**-5030 at 5000 bits, and iv.gamma / rgamma / loggamma / '
+                         'factorial exclude the exact value from iv.prec = 4960 on', line=first))
 
 
 # --------------------------------------------------------------------------- C-R20
